@@ -164,6 +164,9 @@ func runOptsSeq(x *C16Case, defaults, callOpts []OptEntry, nilAt int, followUp b
 		return o, got, "second call on the same Func without call options succeeded although some parameter has neither a default nor a call value (a value of the first call lingered)", nil
 	}
 	o3 := w.Call(f, cargs)
+	if msg := w.RetainedMismatch(); msg != "" {
+		return o, got, msg, nil
+	}
 	if o3.Panic != "" || o3.Err != nil {
 		return o, got, fmt.Sprintf("third call (the first call's options again) failed: %s %.100s", o3.Panic, o3.ErrS), nil
 	}
